@@ -837,7 +837,47 @@ fn identities(cfg: &Cfg, rep: &mut Report, h: u64, steps: usize) {
     let na = 6;
     let accounts = w.accounts(na);
     let ids = w.accounts(4);
-    let cd = |code: u32| CountryData { country: CountryRelation::Individual(IndividualCountryRelation::Residence(code)), metadata: None };
+    // the metadata of an entry is a function of its code (code % 8), so that the model keeps codes only and
+    // every getter can still be compared on the whole entry: 0-2 none, 3 an empty map, 4 one short value,
+    // 5 as many values as allowed, each as long as allowed, 6 one value more than allowed, 7 one value one
+    // character too long. Shapes 6 and 7 are refused by every call that carries them.
+    use stellar_tokens::rwa::identity_registry_storage::{MAX_METADATA_ENTRIES, MAX_METADATA_STRING_LEN};
+    let cd = |code: u32| {
+        let long = |n: u32| SString::from_str(e, &"m".repeat(n as usize));
+        let metadata: Option<soroban_sdk::Map<Symbol, SString>> = match code % 8 {
+            0..=2 => None,
+            3 => Some(soroban_sdk::Map::new(e)),
+            4 => {
+                let mut m = soroban_sdk::Map::new(e);
+                m.set(Symbol::new(e, "visa"), SString::from_str(e, "x"));
+                Some(m)
+            }
+            5 | 6 => {
+                let mut m = soroban_sdk::Map::new(e);
+                for i in 0..MAX_METADATA_ENTRIES + (code % 8 - 5) {
+                    m.set(Symbol::new(e, &format!("k{i}")), long(MAX_METADATA_STRING_LEN));
+                }
+                Some(m)
+            }
+            _ => {
+                let mut m = soroban_sdk::Map::new(e);
+                m.set(Symbol::new(e, "visa"), long(MAX_METADATA_STRING_LEN + 1));
+                Some(m)
+            }
+        };
+        CountryData { country: CountryRelation::Individual(IndividualCountryRelation::Residence(code)), metadata }
+    };
+    let valid_code = |code: u32| code % 8 < 6;
+    // n codes, all distinct; one call in eight carries exactly one entry with metadata beyond the limits
+    let mk_codes = |rng: &mut Rng, n: usize, serial: u32| -> Vec<u32> {
+        let mut v: Vec<u32> = (0..n).map(|j| (serial * 16 + j as u32) * 8 + *rng.pick(&[0u32, 1, 2, 2, 3, 4, 5])).collect();
+        if n > 0 && rng.chance(1, 8) {
+            let any = rng.idx(n);
+            let j = *rng.pick(&[0usize, n - 1, any]);
+            v[j] = v[j] / 8 * 8 + 6 + rng.below(2) as u32;
+        }
+        v
+    };
     let mut ident: BTreeMap<usize, (usize, Vec<u32>)> = BTreeMap::new(); // account -> (identity, country codes)
     let mut recovered: BTreeMap<usize, usize> = BTreeMap::new();
     for step in 0..steps {
@@ -852,13 +892,17 @@ fn identities(cfg: &Cfg, rep: &mut Report, h: u64, steps: usize) {
         let (desc, want, r): (String, bool, Result<(), Fail>);
         if k < 25 {
             let n = *rng.pick(&[0usize, 1, 2, 14, 15, 16]);
-            let codes: Vec<u32> = (0..n).map(|j| 100 + j as u32 + step as u32).collect();
+            let codes: Vec<u32> = mk_codes(&mut rng, n, step as u32);
             let mut v: SVec<CountryData> = SVec::new(e);
             for x in &codes {
                 v.push_back(cd(*x));
             }
             let idn = rng.idx(4);
-            want = !recovered.contains_key(&a) && n >= 1 && n <= 15 && !ident.contains_key(&a);
+            let meta_ok = codes.iter().all(|c| valid_code(*c));
+            if !meta_ok {
+                rep.count("metadata_beyond_limits_offered");
+            }
+            want = !recovered.contains_key(&a) && n >= 1 && n <= 15 && !ident.contains_key(&a) && meta_ok;
             desc = format!("add_identity(A{a}, ID{idn}, {n} countries)");
             r = invoke(e, &c, "add_identity", args!(e, accounts[a], ids[idn], IdentityType::Individual, v));
             rep.case(format!("irs/add/present={}/recovered={}/countries={n}/{}", ident.contains_key(&a), recovered.contains_key(&a), tag(&r)));
@@ -894,13 +938,17 @@ fn identities(cfg: &Cfg, rep: &mut Report, h: u64, steps: usize) {
             }
         } else if k < 75 {
             let n = *rng.pick(&[0usize, 1, 2, 13, 14]);
-            let codes: Vec<u32> = (0..n).map(|j| 500 + j as u32 + step as u32).collect();
+            let codes: Vec<u32> = mk_codes(&mut rng, n, 100_000 + step as u32);
             let mut v: SVec<CountryData> = SVec::new(e);
             for x in &codes {
                 v.push_back(cd(*x));
             }
             let have = ident.get(&a).map_or(0, |x| x.1.len());
-            want = n >= 1 && ident.contains_key(&a) && have + n <= 15;
+            let meta_ok = codes.iter().all(|c| valid_code(*c));
+            if !meta_ok {
+                rep.count("metadata_beyond_limits_offered");
+            }
+            want = n >= 1 && ident.contains_key(&a) && have + n <= 15 && meta_ok;
             desc = format!("add_country_data_entries(A{a}, {n}) having {have}");
             r = invoke(e, &c, "add_country_data_entries", args!(e, accounts[a], v));
             rep.case(format!("irs/add_countries/fill={}/n={n}/{}", fill(15, have), tag(&r)));
@@ -910,12 +958,16 @@ fn identities(cfg: &Cfg, rep: &mut Report, h: u64, steps: usize) {
         } else if k < 87 {
             let have = ident.get(&a).map_or(0, |x| x.1.len());
             let idx = *rng.pick(&[0u32, have.saturating_sub(1) as u32, have as u32, 3]);
-            want = ident.contains_key(&a) && (idx as usize) < have;
-            desc = format!("modify_country_data(A{a}, {idx}) having {have}");
-            r = invoke(e, &c, "modify_country_data", args!(e, accounts[a], idx, cd(9000 + step as u32)));
-            rep.case(format!("irs/modify_country/in-range={}/{}", (idx as usize) < have, tag(&r)));
+            let code = mk_codes(&mut rng, 1, 200_000 + step as u32)[0];
+            if !valid_code(code) {
+                rep.count("metadata_beyond_limits_offered");
+            }
+            want = ident.contains_key(&a) && (idx as usize) < have && valid_code(code);
+            desc = format!("modify_country_data(A{a}, {idx}, code {code}) having {have}");
+            r = invoke(e, &c, "modify_country_data", args!(e, accounts[a], idx, cd(code)));
+            rep.case(format!("irs/modify_country/in-range={}/metadata-shape={}/{}", (idx as usize) < have, code % 8, tag(&r)));
             if r.is_ok() && want {
-                ident.get_mut(&a).unwrap().1[idx as usize] = 9000 + step as u32;
+                ident.get_mut(&a).unwrap().1[idx as usize] = code;
             }
         } else {
             let have = ident.get(&a).map_or(0, |x| x.1.len());
@@ -944,14 +996,21 @@ fn identities(cfg: &Cfg, rep: &mut Report, h: u64, steps: usize) {
             rep.check("ref", codes == ident.get(&x).map(|v| v.1.clone()), "C20/ref/identities/profile", || format!("A{x}: countries {codes:?} vs {:?}", ident.get(&x).map(|v| &v.1)));
             // the list getter and every index answer the same sequence
             let ge: Result<SVec<CountryData>, Fail> = invoke(e, &c, "get_country_data_entries", args!(e, accounts[x]));
+            if let (Ok(v), Some(m)) = (&ge, ident.get(&x)) {
+                let same = v.len() as usize == m.1.len() && v.iter().zip(m.1.iter()).all(|(c, code)| c == cd(*code));
+                let same_countries = v.len() as usize == m.1.len() && v.iter().zip(m.1.iter()).all(|(c, code)| c.country == cd(*code).country);
+                rep.check("ref", same || !same_countries, "C20/ref/identities/country-metadata-differs-from-what-was-stored", || format!("A{x}: get_country_data_entries has the right countries {:?} but not the metadata stored with them", m.1));
+            }
             let gcodes: Option<Vec<u32>> = ge.ok().map(|v| v.iter().map(|c| match c.country { CountryRelation::Individual(IndividualCountryRelation::Residence(v)) => v, _ => u32::MAX }).collect());
             // (an account without identity has no entries: an empty list and a refusal both say so)
             rep.check("ref", gcodes.clone().unwrap_or_default() == ident.get(&x).map(|v| v.1.clone()).unwrap_or_default(), "C20/ref/identities/country-data-entries", || format!("A{x}: get_country_data_entries {gcodes:?} vs {:?}", ident.get(&x).map(|v| &v.1)));
             if let Some(v) = ident.get(&x) {
                 for (j, code) in v.1.iter().enumerate() {
                     let g: Result<CountryData, Fail> = invoke(e, &c, "get_country_data", args!(e, accounts[x], j as u32));
+                    let whole = g.as_ref().ok().map_or(false, |c| *c == cd(*code));
                     let gc = g.ok().map(|c| match c.country { CountryRelation::Individual(IndividualCountryRelation::Residence(v)) => v, _ => u32::MAX });
                     rep.check("ref", gc == Some(*code), "C20/ref/identities/country-data-by-index", || format!("A{x}: get_country_data({j}) = {gc:?}, model {code}"));
+                    rep.check("ref", whole || gc != Some(*code), "C20/ref/identities/country-metadata-differs-from-what-was-stored", || format!("A{x}: get_country_data({j}) has the right country {code} but not the metadata stored with it (shape {})", code % 8));
                 }
             }
             let have = ident.get(&x).map_or(0, |v| v.1.len()) as u32;
